@@ -148,7 +148,7 @@ pub fn run_profile(a: &RunArgs, profile: &str, exe: &str, replay_dir: &str) -> P
     let ctx = Ctx::new(a.seed, a.tier);
     let njobs = props::num_jobs(&ctx, &a.prop);
     let w = a.workers.max(1).min(njobs.max(1) as usize);
-    let watchdog = Duration::from_secs(if a.tier == Tier::Quick { 30 } else { 90 });
+    let watchdog = Duration::from_secs(if a.tier == Tier::Quick { 90 } else { 240 });
     let (tx, rx) = mpsc::channel::<Msg>();
     let mut ws: Vec<WState> = Vec::new();
     let start_reader = |child: &mut Child, k: usize, tx: mpsc::Sender<Msg>| {
